@@ -37,7 +37,7 @@ class Insert(ASTNode):
         elif isinstance(col, Identifier):
             return TableColumn(col.parts[0])
         elif isinstance(col, Constant):
-            return TableColumn(col.value)
+            return TableColumn(str(col.value))
         return TableColumn(str(col))
 
     def to_value(self, val):
